@@ -2,6 +2,7 @@ import Driver.Util
 import Driver.C04
 import Paroxy.Model.Report
 import Paroxy.Spec.ReportCell
+import Paroxy.Spec.ReportText
 open Lean Paroxy Paroxy.Filter Paroxy.Costs Paroxy.Report
 
 namespace Driver.C17
@@ -82,7 +83,64 @@ def parse : Handler := fun j => do
   | none => pure Json.null
   | some spans => pure (Json.arr (spans.map spanJson).toArray)
 
+/-- `"n/d"` (what `C04.ratStr` writes). -/
+def parseRatStr (s : String) : Except String Rat :=
+  match s.splitOn "/" with
+  | [n, d] =>
+    match n.toInt?, d.toNat? with
+    | some n, some d => pure ((n : Rat) / ((d : Nat) : Rat))
+    | _, _ => throw s!"rational n/d expected: {s}"
+  | _ => throw s!"rational n/d expected: {s}"
+
+/-- A structured body in the JSON form `rep.run` writes (`label`, `sections` with `path`, `cost`, `rows`). -/
+def parseBodyJson (j : Json) : Except String (List (Bucket × List Section)) := do
+  (← j.getArr?).toList.mapM fun g => do
+    let label ← getStr g "label"
+    let bk ← match ReportText.parseBucket label.toList with
+      | some b => pure b
+      | none => throw s!"not a bucket label: {label}"
+    let secs ← (← getArr g "sections").toList.mapM fun sj => do
+      let path ← getStr sj "path"
+      let cost ← parseRatStr (← getStr sj "cost")
+      let rows ← (← getArr sj "rows").toList.mapM fun rj => do
+        match (← rj.getArr?).toList with
+        | [t, c, sp] =>
+          pure ({ taxon := codesOf (← t.getStr?), cost := ← parseRatStr (← c.getStr?), spans := ← parseSpans sp } : Row)
+        | _ => throw "row: [taxon, cost, spans] expected"
+      pure ({ path := codesOf path, cost := cost, rows := rows } : Section)
+    pure (bk, secs)
+
+def bodyJson (b : List (Bucket × List Section)) : Json :=
+  Json.arr (b.map fun (bk, secs) =>
+    Json.mkObj [("label", Json.str (bucketLabel bk)), ("count", Json.num secs.length),
+      ("sections", Json.arr (secs.map fun s =>
+        Json.mkObj [("path", Json.str (strOf s.path)), ("cost", Json.str (C04.ratStr s.cost)),
+          ("rows", Json.arr (s.rows.map fun r => Json.arr #[Json.str (strOf r.taxon),
+            Json.str (C04.ratStr r.cost), Json.arr (r.spans.map spanJson).toArray]).toArray)]).toArray)]).toArray
+
+/-- `c17.body_text`: the lines `ReportText.renderBody` writes for a structured body (cost texts: `showFloat`,
+`rowCostText zeno`), with the two hygiene hypotheses of `C17_text_roundtrip` evaluated on it. -/
+def bodyText : Handler := fun j => do
+  let b ← parseBodyJson (← j.getObjVal? "body")
+  let w ← getInt j "width"
+  let zeno := (← getStr j "strategy") == "zeno"
+  let ls := ReportText.renderBody ReportText.showFloat (ReportText.rowCostText zeno) w.toNat b
+  pure (Json.mkObj [("lines", Json.arr (ls.map fun l => Json.str (String.ofList l)).toArray),
+    ("ok_body", Json.bool (ReportText.okBody b)),
+    ("costs_ok", Json.bool (ReportText.costsOK ReportText.showFloat (ReportText.rowCostText zeno) ReportText.readDecimal b))])
+
+/-- `c17.body_parse`: the spec's reading of body lines, or of the body text (`ReportText.parseBodyStrict readDecimal`,
+after `ReportText.splitLines` for a text); `null` = unreadable. -/
+def bodyParse : Handler := fun j => do
+  let ls ← match j.getObjVal? "text" with
+    | .ok t => pure (ReportText.splitLines (← t.getStr?).toList)      -- the text itself: `split("\n")` of the spec
+    | .error _ => pure ((← strList (← j.getObjVal? "lines")).map String.toList)
+  match ReportText.parseBodyStrict ReportText.readDecimal ls with
+  | none => pure Json.null
+  | some b => pure (bodyJson b)
+
 def handlers : List (String × Handler) :=
-  [("rep.run", run), ("rep.bucket", bucket), ("c17.cell", cell), ("c17.lines", lines), ("c17.parse", parse)]
+  [("rep.run", run), ("rep.bucket", bucket), ("c17.cell", cell), ("c17.lines", lines), ("c17.parse", parse),
+   ("c17.body_text", bodyText), ("c17.body_parse", bodyParse)]
 
 end Driver.C17
